@@ -117,7 +117,10 @@ def findPositionC (val : Nat) (cmp : Nat → Nat → Bool) : Nat → Loc → Nat
     else if wnext cur = MAXU32 then pure (cur, loc)
     else do
       let nw ← load (.node (wnext cur)) "find_position" 2
-      if wsize nw = 0 then findPositionC val cmp fuel loc cur
+      if wsize nw = 0 then do
+        -- the next node is marked removed: search again from the head
+        let cur' ← load .sent "find_position" 3
+        findPositionC val cmp fuel .hdr cur'
       else if cmp val (wsize nw) then pure (cur, loc)
       else findPositionC val cmp fuel (.node (wnext cur)) nw
 
@@ -234,7 +237,10 @@ def slowOptC (c : Cfg) (size fuel : Nat) : Nat → Prog (Except Err Meta)
           else do
             let (_, ok2) ← cas .sent sent (enc (wsize sent) (wnext hw)) "alloc_slow_path_optimistic" 3
             if ok2 then finishSlowC c head (wsize hw) size fuel
-            else slowOptC c size fuel tries
+            else do
+              -- give the mark back
+              let _ ← cas (.node head) (enc 0 (wnext hw)) hw "alloc_slow_path_optimistic" 4
+              slowOptC c size fuel tries
 
 /-- `alloc_slow_path_pessimistic` -/
 def slowPessC (c : Cfg) (size fuel : Nat) : Nat → Prog (Except Err Meta)
@@ -256,7 +262,10 @@ def slowPessC (c : Cfg) (size fuel : Nat) : Nat → Prog (Except Err Meta)
             if ok2 then do
               let _ ← liftM' (subU "pess:remaining" (wsize nw) size)
               finishSlowC c noff (wsize nw) size fuel
-            else slowPessC c size fuel tries
+            else do
+              -- give the mark back
+              let _ ← cas (.node noff) (enc 0 (wnext nw)) nw "alloc_slow_path_pessimistic" 2
+              slowPessC c size fuel tries
 
 def slowPathC (c : Cfg) (size fuel : Nat) : Prog (Except Err Meta) :=
   match c.kind with
@@ -360,7 +369,10 @@ def discardLoopC (c : Cfg) : Nat → Nat → Prog Nat
             incDiscardedC c (wsize hw)
             let acc' ← liftM' (addU32 "discard:sum" acc (wsize hw))
             discardLoopC c fuel acc'
-          else discardLoopC c fuel acc
+          else do
+            -- give the mark back
+            let _ ← cas (.node head) (enc 0 (wnext hw)) hw "discard_freelist_in" 4
+            discardLoopC c fuel acc
 
 def discardFreelistC (c : Cfg) (fuel : Nat) : Prog (Except Err Nat) :=
   if c.ro then pure (.error .readOnly)
@@ -474,5 +486,71 @@ def stepAccess {α : Type} (sh : Shared) (p : Prog α) (spurious : Bool) : M (Sh
     let sh' ← sh.write l new
     pure (sh', k old, ⟨if sub then .fas else .faa, l, s, old, new, true⟩)
   | _ => throw (.trap "stepAccess: not an access")
+
+end Rarena.Conc
+
+namespace Rarena.Conc
+
+/-! ### several threads -/
+
+/-- global state: the shared memory and one program per thread (`none` = finished, with its result) -/
+structure Global (α : Type) where
+  sh : Shared
+  threads : List (Prog α)
+
+/-- grant one step to thread `tid`: run its pending non-atomic prefix, perform its next atomic access, then
+    run the non-atomic code that follows. A finished (or failed) thread is left alone. Returns the event, if any. -/
+def Global.step {α : Type} (g : Global α) (tid : Nat) (spurious : Bool) : Global α × Option Event :=
+  match g.threads[tid]? with
+  | none => (g, none)
+  | some p =>
+    match settle 100000 g.sh p [] with
+    | (sh1, .blocked p1, _) =>
+      match stepAccess sh1 p1 spurious with
+      | .ok (sh2, p2, e) =>
+        match settle 100000 sh2 p2 [] with
+        | (sh3, .blocked p3, _) => ({ sh := sh3, threads := g.threads.set tid p3 }, some e)
+        | (sh3, .done a, _) => ({ sh := sh3, threads := g.threads.set tid (.ret a) }, some e)
+        | (sh3, .failed (.trap s), _) => ({ sh := sh3, threads := g.threads.set tid (.trap s) }, some e)
+        | (sh3, .failed .diverge, _) => ({ sh := sh3, threads := g.threads.set tid .diverge }, some e)
+      | .error (.trap s) => ({ g with sh := sh1, threads := g.threads.set tid (.trap s) }, none)
+      | .error .diverge => ({ g with sh := sh1, threads := g.threads.set tid .diverge }, none)
+    | (sh1, .done a, _) => ({ sh := sh1, threads := g.threads.set tid (.ret a) }, none)
+    | (sh1, .failed (.trap s), _) => ({ sh := sh1, threads := g.threads.set tid (.trap s) }, none)
+    | (sh1, .failed .diverge, _) => ({ sh := sh1, threads := g.threads.set tid .diverge }, none)
+
+/-- run a schedule (a list of thread ids with the spurious-failure choice) -/
+def Global.run {α : Type} (g : Global α) : List (Nat × Bool) → Global α × List (Nat × Event)
+  | [] => (g, [])
+  | (tid, sp) :: rest =>
+    let (g1, e) := g.step tid sp
+    let (g2, es) := g1.run rest
+    (g2, match e with | some e => (tid, e) :: es | none => es)
+
+/-- results of the finished threads -/
+def Global.results {α : Type} (g : Global α) : List (Option α) :=
+  g.threads.map (fun p => match p with | .ret a => some a | _ => none)
+
+/-- run one program alone to completion -/
+def runSolo {α : Type} : Nat → Shared → Prog α → M (α × Shared)
+  | 0, _, _ => throw .diverge
+  | n + 1, sh, p =>
+    match p with
+    | .ret a => pure (a, sh)
+    | .trap s => throw (.trap s)
+    | .diverge => throw .diverge
+    | .na e k => do let sh' ← sh.applyNA e; runSolo n sh' (k ())
+    | p => do let (sh', p', _) ← stepAccess sh p false; runSolo n sh' p'
+
+/-- a thread that performs bump allocations of the given byte sizes one after the other and returns the
+    handles it obtained -/
+def allocAllC (c : Cfg) (cap fuel : Nat) : List Nat → Prog (List Meta)
+  | [] => pure []
+  | n :: rest => do
+    let r ← allocBytesC c cap n fuel
+    let ms ← allocAllC c cap fuel rest
+    match r with
+    | .ok (some m) => pure (m :: ms)
+    | _ => pure ms
 
 end Rarena.Conc
